@@ -102,6 +102,23 @@ func leaky() vrt.Run {
 	}}
 }
 
+// unlockUnlocked: one of two threads unlocks a mutex it never locked when it runs first; the real call
+// would be a fatal error that ends the process, under the scheduler it must be a panic verdict.
+func unlockUnlocked() vrt.Run {
+	var mu sync.Mutex
+	return vrt.Run{Body: func() {
+		a := vrt.Go(func() {
+			vrt.MutexLock(&mu)
+			vrt.MutexUnlock(&mu)
+		})
+		b := vrt.Go(func() {
+			defer vrt.MutexUnlock(&mu) // the Lock this belongs to was "tidied away"
+		})
+		vrt.Join(a)
+		vrt.Join(b)
+	}, Verdict: verdict(func() string { return "" })}
+}
+
 func abba(ordered bool) func() vrt.Run {
 	return func() vrt.Run {
 		var a, b sync.Mutex
@@ -389,6 +406,7 @@ func SelfCheck() (ok bool, report []string) {
 		{"racy-locked", racy(true), []string{"ok:2"}, ""},
 		{"pipeline", func() vrt.Run { return pipeline() }, []string{"ok:[0 1 2]"}, ""},
 		{"pool", func() vrt.Run { return pooled() }, []string{"ok:1 0", "ok:1 7", "ok:7 1"}, ""},
+		{"unlock-unlocked", func() vrt.Run { return unlockUnlocked() }, []string{"ok+panic:"}, "ok+panic"},
 		{"cond-rlocker", condReaders(true), []string{"ok:"}, ""},
 		{"cond-rlocker-lost-wakeup", condReaders(false), []string{"deadlock:", "ok:"}, "deadlock"},
 	}
